@@ -416,4 +416,45 @@ theorem Vk_sweep {k : Nat} (hk : k + 1 < m) :
 
 end rows
 
+section rows
+variable {rel : List Vec} {m : Nat} (hrect : Rect m rel)
+include hrect
+
+/-- **level `k+1` of the sweep is exact given exact cross-sections**: `hvol` accumulated up to the
+last node `q` plus the last slab is the hypervolume of the projected nodes -/
+theorem Vk_last {k : Nat} (hk : k + 1 < m) (S : List Nat) (q : Nat)
+    (hS : ∀ i ∈ S ++ [q], i < rel.length)
+    (hsorted : (S ++ [q]).Pairwise (fun i j => zc rel (k + 1) i ≤ zc rel (k + 1) j))
+    (hneg : ∀ i ∈ S ++ [q], zc rel (k + 1) i ≤ 0) :
+    Vk rel (k + 1) (S ++ [q])
+      = volSum rel (k + 1) (S ++ [q]) + Vk rel k (S ++ [q]) * (0 - zc rel (k + 1) q) := by
+  obtain ⟨a, t, hat⟩ : ∃ a t, S ++ [q] = a :: t := by
+    cases S with
+    | nil => exact ⟨q, [], rfl⟩
+    | cons a S => exact ⟨a, S ++ [q], rfl⟩
+  have hlast : (a :: t).getLastD a = q := by
+    rw [← hat]; simp
+  rw [hat] at hS hsorted hneg ⊢
+  have hsw := Vk_sweep hrect hk t [] a (by simpa using hS)
+  simp only [List.map_nil, List.nil_append] at hsw
+  unfold volSum
+  rw [← hlast, ← hsw]
+  unfold Vk
+  rw [List.map_cons, show List.replicate (k + 1 + 1) (0 : Rat) = 0 :: List.replicate (k + 1) 0 from rfl]
+  have e : rvec rel (k + 1) a :: t.map (rvec rel (k + 1)) = (a :: t).map (rvec rel (k + 1)) := rfl
+  apply hv_eq_sweepSum
+  · rw [e, List.pairwise_map]
+    refine (List.Pairwise.and_mem.mp hsorted).imp ?_
+    rintro i j ⟨hi, hj, hij⟩
+    rw [hd_rvec_succ hrect (hS i hi) hk, hd_rvec_succ hrect (hS j hj) hk]; exact hij
+  · intro p hp
+    rw [e] at hp
+    obtain ⟨i, hi, rfl⟩ := List.mem_map.mp hp
+    rw [hd_rvec_succ hrect (hS i hi) hk]; exact hneg i hi
+  · intro p hp
+    rw [e] at hp
+    obtain ⟨i, hi, rfl⟩ := List.mem_map.mp hp
+    rw [rvec_succ hrect (hS i hi) hk]; simp
+
+end rows
 end DH.Hypervolume
